@@ -829,6 +829,9 @@ theorem config_final_iff_ended (c : Config α) (hadj : c.AdjConsistent) (source 
 def _root_.Compass.Config.VerticesBelow (c : Config α) (n : Nat) : Prop :=
   ∀ er ∈ c.edges, er.src < n ∧ er.dst < n
 
+instance (c : Config α) (n : Nat) : Decidable (c.VerticesBelow n) := by
+  unfold Config.VerticesBelow; infer_instance
+
 theorem config_keyV_lt (c : Config α) {n : Nat} (hV : c.VerticesBelow n) (hn : 0 < n) (e : Nat) :
     c.inst.keyV e < n := by
   simp only [Config.inst]
